@@ -25,7 +25,7 @@ RULE = ('each run: one sequential library block (Reg with all option combination
 REAL = ['py4hw sequential library blocks', 'py4hw.simulation.Simulator']
 STUB = ['stimulus (wire.put between clk calls)']
 ASSUMPTIONS = ['state machines in dsim/catalog.py are the documented ones; power-up: output wire 0, held value = reset value']
-PROBES = ['left_powerup', 'control_collision', 'wrap_around', 'stack_overfill', 'stack_pop_empty', 'same_addr_rw']
+PROBES = ['block_added_after_simulation', 'left_powerup', 'control_collision', 'wrap_around', 'stack_overfill', 'stack_pop_empty', 'same_addr_rw']
 
 SEQ = [k for k in kinds_with(seq=True) if k.name != 'Sequence']
 
@@ -37,7 +37,8 @@ def gen(rs, tier, index):
     pool.pick = lambda w: pool.new_input(w)           # every port gets its own primary input
     pool.any = lambda lo=1, hi=None: pool.new_input(rand_width(rng, lo, min(hi or 64, 64)))
     params, ins, ows = k.plan(rng, pool)
-    d = {'inputs': pool.inputs, 'nodes': [{'id': 0, 'kind': k.name, 'p': params, 'ins': ins, 'ow': ows, 'grp': []}],
+    d = {'inputs': pool.inputs, 'nodes': [{'id': 0, 'kind': k.name, 'p': params, 'ins': ins, 'ow': ows,
+                                           'grp': rng.choice([[], [], ['g0'], ['g0', 'g1']])}],
          'outputs': ['n0.%d' % j for j in range(len(ows))], 'order': [0]}
     sr = rs.get('stimulus')
     fr = rs.get('faults')
@@ -68,7 +69,8 @@ def gen(rs, tier, index):
         steps.append({'vec': list(cur), 'n': n, 'parts': parts, 'faults': faults, 'pseed': rs.sub('p%d' % si)})
         c += n
         si += 1
-    return {'design': d, 'steps': steps}
+    # late_dut: the simulator exists and has run before the block is instantiated (inside a nested sub-block or at the top)
+    return {'design': d, 'steps': steps, 'late_dut': fr.choice([None, None, None, None, 0, 2])}
 
 
 def run(scn, log, st):
@@ -76,12 +78,23 @@ def run(scn, log, st):
     node = d['nodes'][0]
     kind = node['kind']
     log.add('kind', kind, repr(sorted(node['p'].items())), node['ow'])
-    b = netlist.Built(d).build()
+    b = netlist.Built(d)
+    if scn.get('late_dut') is not None:
+        for i in d['inputs']:
+            b.wire(i['name'])
+        with quiet():
+            b.hw.getSimulator().clk(scn['late_dut'])
+        st.fault('late_add')
+        st.probe('block_added_after_simulation')
+    b.build()
     with quiet():
         sim = b.hw.getSimulator()
     ref = netlist.RefModel(d)
     ref.settle()
-    netlist.compare(b, ref.vals, 0, 'at power-up', sigprefix='sm')
+    if scn.get('late_dut') is None:
+        # (a simulator that already existed is re-sorted by getSimulator(), not re-settled: combinational outputs of
+        # the new block are compared from the first clk() on)
+        netlist.compare(b, ref.vals, 0, 'at power-up', sigprefix='sm')
     init_state = repr(ref.state[0])
     names = [i['name'] for i in d['inputs']]
     for si, step in enumerate(scn['steps'], 1):
@@ -144,6 +157,8 @@ def probes(kind, node, vec, ref, st):
 
 def shrink(scn):
     yield from shrink_list(scn, 'steps', 1)
+    if scn.get('late_dut') is not None:
+        yield dict(scn, late_dut=None)
     for i, s in enumerate(scn['steps']):
         if s['n'] > 1 or s['faults']:
             c = dict(scn)
